@@ -599,6 +599,34 @@ pub struct Hasher;
 
 type Resid = BTreeSet<(usize, BTreeSet<(usize, bool)>)>;
 
+/// the first integer in the Debug form of a HashedCNF (`HashedCNF { v: [a, a] }`)
+fn debug_value(h: &HashedCNF) -> Option<u128> {
+    let s = format!("{:?}", h);
+    let digits: String = s.chars().skip_while(|c| !c.is_ascii_digit()).take_while(|c| c.is_ascii_digit()).collect();
+    digits.parse().ok()
+}
+
+/// prime factors (with multiplicity) if x factors completely over the primes below 2000
+fn small_prime_factors(mut x: u128) -> Option<Vec<u128>> {
+    if x == 0 {
+        return None;
+    }
+    let mut out = Vec::new();
+    let mut p = 2u128;
+    while p < 2000 && x > 1 {
+        while x % p == 0 {
+            out.push(p);
+            x /= p;
+        }
+        p += if p == 2 { 1 } else { 2 };
+    }
+    if x == 1 {
+        Some(out)
+    } else {
+        None
+    }
+}
+
 pub fn run_hasher(case: &HasherCase, st: &mut Stats) -> CaseResult {
     let base = case.cnf.to_rsdd();
     let cnf = match case.pre_condition {
@@ -643,6 +671,7 @@ pub fn run_hasher(case: &HasherCase, st: &mut Stats) -> CaseResult {
     let mut levels: Vec<Vec<(usize, bool)>> = vec![vec![]];
     let mut seen_r: BTreeMap<Resid, (HashedCNF, Vec<Option<bool>>)> = BTreeMap::new();
     let mut seen_h: Vec<(HashedCNF, Resid, Vec<Option<bool>>, bool)> = Vec::new();
+    let mut seen_f: Vec<(BTreeSet<u128>, BTreeSet<(usize, usize)>)> = Vec::new();
     let mut pops = 0;
     let mut equal_resid_diff_decisions = 0;
     for (i, op) in case.ops.iter().enumerate() {
@@ -729,6 +758,61 @@ pub fn run_hasher(case: &HasherCase, st: &mut Stats) -> CaseResult {
                 if !exact {
                     inexact_states += 1;
                 }
+                // "the product of literal primes": while it fits in 128 bits the hash value itself (read from the
+                // Debug form of HashedCNF, its only window) must be a product of distinct small primes, one per
+                // residual literal occurrence, and two states must share exactly as many prime factors as they
+                // share residual occurrences. Which prime an occurrence gets is not fixed. This is what makes "only
+                // then" checkable beyond the few million pairs a run can compare directly: any reduction of the
+                // product (a modulus, a narrower integer) destroys the factorisation.
+                if exact {
+                    let occ_now: BTreeSet<(usize, usize)> = clauses
+                        .iter()
+                        .enumerate()
+                        .filter(|(_, c)| c.len() > 1 && !c.iter().any(|(v, p)| m[*v] == Some(*p)))
+                        .flat_map(|(ci, c)| c.iter().enumerate().filter(|(_, (v, _))| m[*v].is_none()).map(move |(li, _)| (ci, li)).collect::<Vec<_>>())
+                        .collect();
+                    match debug_value(&hv).and_then(small_prime_factors) {
+                        Some(fs) => {
+                            let distinct: BTreeSet<u128> = fs.iter().copied().collect();
+                            ensure!(
+                                distinct.len() == fs.len() && fs.len() == occ_now.len(),
+                                "C15/hasher-value-is-not-a-product-of-one-prime-per-residual-occurrence",
+                                "op #{}: under {:?} the residual has {} literal occurrences and their prime product fits in 128 bits, but the hash {:?} factors as {:?}",
+                                i,
+                                m,
+                                occ_now.len(),
+                                hv,
+                                fs
+                            );
+                            for (f1, o1) in seen_f.iter() {
+                                let common_f = distinct.intersection(f1).count();
+                                let common_o = occ_now.intersection(o1).count();
+                                ensure!(
+                                    common_f == common_o,
+                                    "C15/hasher-value-is-not-a-product-of-one-prime-per-residual-occurrence",
+                                    "op #{}: two states share {} residual literal occurrences but their hashes share {} prime factors",
+                                    i,
+                                    common_o,
+                                    common_f
+                                );
+                            }
+                            if seen_f.len() < 24 {
+                                seen_f.push((distinct, occ_now));
+                            }
+                            st.bump("hasher.values_factorised");
+                        }
+                        None => {
+                            if debug_value(&hv).is_none() {
+                                st.bump("hasher.debug_form_not_understood(value oracle skipped)");
+                            } else {
+                                return fail(
+                                    "C15/hasher-value-is-not-a-product-of-one-prime-per-residual-occurrence",
+                                    format!("op #{}: under {:?} the prime product of the residual fits in 128 bits, but the hash {:?} has a factor that is not a small prime", i, m, hv),
+                                );
+                            }
+                        }
+                    }
+                }
                 if exact {
                     for (h1, r1, m1, e1) in seen_h.iter() {
                         if *e1 && *h1 == hv {
@@ -759,7 +843,7 @@ pub fn run_hasher(case: &HasherCase, st: &mut Stats) -> CaseResult {
 impl SubCheckT for Hasher {
     type Case = HasherCase;
     const NAME: &'static str = "hasher";
-    const RULE: &'static str = "CnfHasher (clone of cnf.hasher(), in 30 % of the cases of a CNF obtained by condition()) under histories of push / decide / pop (pop only above depth 0; decides consistent with the decisions in effect) and hash(m) where m = decisions in effect + random consistent extras and m falsifies no clause: residual R(m) = {(clause occurrence, its unassigned literals)} over unsatisfied clauses of length > 1; equal residuals => equal hashes, and for every pair of states whose products of residual-occurrence primes (k-th occurrence = k-th prime) fit in 128 bits, equal hashes => equal residuals. Non-trivial: >=1 pop and two different assignments with equal residuals";
+    const RULE: &'static str = "CnfHasher (clone of cnf.hasher(), in 30 % of the cases of a CNF obtained by condition()) under histories of push / decide / pop (pop only above depth 0; decides consistent with the decisions in effect) and hash(m) where m = decisions in effect + random consistent extras and m falsifies no clause: residual R(m) = {(clause occurrence, its unassigned literals)} over unsatisfied clauses of length > 1; equal residuals => equal hashes, and for every pair of states whose products of residual-occurrence primes (k-th occurrence = k-th prime) fit in 128 bits, equal hashes => equal residuals; for such states the hash value (Debug form) must factor into distinct small primes, one per residual occurrence, sharing factors exactly as the residuals share occurrences. Non-trivial: >=1 pop and two different assignments with equal residuals";
     fn cases(tier: Tier) -> u32 {
         tier.pick(10_000, 150_000)
     }
